@@ -5,6 +5,7 @@ an admissible abstract state, and everything keeps working (`Lemmas/CrashRefine.
 import Cacache.Lemmas.CrashRefine
 import Cacache.Lemmas.FaultStrict
 import Cacache.Lemmas.FaultMore
+import Cacache.Lemmas.Gaps
 
 namespace Cacache.C13x
 open Prog CacheRefine CrashRefine
@@ -197,5 +198,35 @@ theorem extractHash_pairs (how : Extract) (sri : Integrity) (dest : Path) (env :
       (runFault env (pairPlan a b f g) (extractHash cfg how cache sri dest) fs 0).1
       (runFault env (pairPlan a b f g) (extractHash cfg how cache sri dest) fs 0).2.1 :=
   FaultMore.extractHash_pairs cfg cache how sri dest env fs a b f g
+
+
+open Refine CacheRefine ListRefine FaultMore CrashMore in
+/-- **Retrying `remove_fully` after a fault** (from `Lemmas/Gaps.lean`).  From a healthy, tidy cache
+run `remove_fully key` under ANY fault plan, then again without faults: the state in between is healthy
+and tidy, so the retry answers what the specification answers there; if the faulty run answered an
+ERROR, it left the old or the dangling abstract state and the retry ends in EXACTLY the state an
+uninterrupted `remove_fully` would have reached; if it answered OK, the retry answers not-found
+and changes no node. -/
+theorem removeFully_fault_retry (env env' : Env) (plan : Nat → Option Fault) (key : Bytes) (fs : FS)
+    (i : Nat) (hH : Healthy cfg cache fs) (hl : HexLen cfg) (hT : Tidy cfg cache fs) :
+    XHealthy cfg cache (runFault env plan (removeFully cfg cache key) fs i).2.1 ∧
+    (run env' (removeFully cfg cache key) (runFault env plan (removeFully cfg cache key) fs i).2.1).1 =
+      (removeFullySpec cfg (absX cfg cache (runFault env plan (removeFully cfg cache key) fs i).2.1) key).2 ∧
+    XHealthy cfg cache
+      (run env' (removeFully cfg cache key) (runFault env plan (removeFully cfg cache key) fs i).2.1).2.1 ∧
+    (∀ e, (runFault env plan (removeFully cfg cache key) fs i).1 = .error e →
+      (absX cfg cache (runFault env plan (removeFully cfg cache key) fs i).2.1 = absX cfg cache fs ∨
+       absX cfg cache (runFault env plan (removeFully cfg cache key) fs i).2.1 =
+        danglingX (absX cfg cache fs) key) ∧
+      absX cfg cache
+        (run env' (removeFully cfg cache key) (runFault env plan (removeFully cfg cache key) fs i).2.1).2.1 =
+        (removeFullySpec cfg (absX cfg cache fs) key).1) ∧
+    ((runFault env plan (removeFully cfg cache key) fs i).1 = .ok () →
+      (run env' (removeFully cfg cache key) (runFault env plan (removeFully cfg cache key) fs i).2.1).1 =
+        .error (.io .notFound) ∧
+      ∀ q, (run env' (removeFully cfg cache key)
+          (runFault env plan (removeFully cfg cache key) fs i).2.1).2.1.get q =
+        (runFault env plan (removeFully cfg cache key) fs i).2.1.get q) :=
+  Gaps.removeFully_fault_retry cfg cache env env' plan key fs i hH hl hT
 
 end Cacache.C13x
